@@ -5,121 +5,169 @@ import CollectionsC.Generated.Funcs
 `Generated/Funcs.lean` is re-translated from the current text of `src/memory/cc_static_pool.c` on
 every build (`tools/gen_funcs.py`): `struct cc_static_pool_s` as the record `GenF.cc_static_pool_s`
 (`size`, the four byte pointers `block`, `high_ptr`, `low_ptr`, `free_ptr` as `GenF.Ptr = Option Nat`
-— `none` is NULL, `some k` is `k` bytes above the start of the region — and the region itself as the
-ghost field `bytes`, which `memset` writes) and `cc_static_pool_malloc`, `_calloc`, `_free`, `_reset`,
-`_used_bytes`, `_free_bytes` as functions on that record, statement by statement, `size_t` arithmetic
-and pointer differences with wrap-around.
+— `none` is NULL, `some a` the address `a` — and the memory they point into as the ghost field `bytes`,
+indexed by address, which `memset` writes) and **every function of the file** — `cc_static_pool_new`,
+`_malloc`, `_calloc`, `_free`, `_reset`, `_used_bytes`, `_free_bytes` — statement by statement, `size_t`
+arithmetic and pointer differences with wrap-around, and with a **`fault` result that is true whenever
+the C execution would have had undefined behaviour** (`/ 0`, arithmetic on NULL or past the end of the
+memory, `memset` of NULL or outside the memory, use of a NULL object).
 
-This file proves that each translated function agrees with the hand-written model function of
-`Model/StaticPool.lean` on **every state that satisfies `StaticPool.Inv`**, every request size and
-pointer argument, every ledger: same returned pointer / number, same resulting C-visible state
-(`ofCore` maps the model's `SPoolCore` — offsets relative to `low_ptr` — to the generated record with
-`block = low_ptr = some 0`; `toCore` back), and the model's ledger is returned unchanged.  So an edit of
-the C text changes the generated definition and breaks the theorem about that function at build time.
-The ghost fields of `StaticPool` (`blocks`, `undo`) have no counterpart in the C text; that the
-C-visible component of every model function does not depend on them is `Proofs/StaticPool.lean`
-(`*_core`), used here. -/
+This file proves, for each translated function: on **every state that satisfies `StaticPool.Inv`**,
+placed at **every base address `b`** (`ofCoreAt b` maps the model's `SPoolCore` — offsets relative to
+`low_ptr` — to the generated record with `block = low_ptr = some b` and the memory below `b` padded;
+`toCore` back), for every request size and pointer argument and every ledger, the translated function is
+**fault-free** and returns what the hand-written model function of `Model/StaticPool.lean` returns: same
+pointer (shifted by `b`) / number, same resulting C-visible state, and the model's ledger is unchanged.
+`spool_new_agrees` shows that `cc_static_pool_new` establishes such a state at base `data_buf + offset`.
+So an edit of the C text changes the generated definition and breaks the theorem about that function at
+build time, also where only the absence of undefined behaviour is lost.  The ghost fields of `StaticPool`
+(`blocks`, `undo`) have no counterpart in the C text; that the C-visible component of every model function
+does not depend on them is `Proofs/StaticPool.lean` (`*_core`), used here. -/
 namespace CC.Properties.C12Gen
 open CC
 
-/-- the model's C-visible state ↦ generated record: `block = low_ptr` is the start of the region -/
-def ofCore (c : SPoolCore) : GenF.cc_static_pool_s :=
-  { size := c.size, block := some 0, high_ptr := some c.high, low_ptr := some 0, free_ptr := some c.free,
-    bytes := c.bytes }
+/-- the model's C-visible state placed at address `b`: `block = low_ptr = b`, the bytes below `b` are padding -/
+def ofCoreAt (b : Nat) (c : SPoolCore) : GenF.cc_static_pool_s :=
+  { size := c.size, block := some b, high_ptr := some (b + c.high), low_ptr := some b, free_ptr := some (b + c.free),
+    bytes := List.replicate b 0 ++ c.bytes }
 
-/-- generated record ↦ the model's C-visible state: pointers as offsets from `low_ptr` -/
+/-- generated record ↦ the model's C-visible state: pointers as offsets from `low_ptr`, the memory from
+`low_ptr` on -/
 def toCore (g : GenF.cc_static_pool_s) : SPoolCore :=
   { size := g.size, free := GenF.pdiff g.free_ptr g.low_ptr, high := GenF.pdiff g.high_ptr g.low_ptr,
-    bytes := g.bytes }
+    bytes := g.bytes.drop (g.low_ptr.getD 0) }
 
-theorem toCore_ofCore (c : SPoolCore) : toCore (ofCore c) = c := by
-  cases c; simp [toCore, ofCore, GenF.pdiff, GenF.wsub]
+theorem toCore_ofCoreAt (b : Nat) (c : SPoolCore) : toCore (ofCoreAt b c) = c := by
+  cases c; simp [toCore, ofCoreAt, GenF.pdiff, GenF.wsub]
 
-/-- `cc_static_pool_malloc` on the C-visible state (needs only `free ≤ size`) -/
-theorem core_malloc_agrees (c : SPoolCore) (n : Nat) (h1 : c.free ≤ c.size) :
-    GenF.cc_static_pool_malloc n (ofCore c) = ((c.malloc n).1, ofCore (c.malloc n).2) := by
-  unfold GenF.cc_static_pool_malloc SPoolCore.malloc ofCore
-  have e : GenF.wsub c.size (GenF.pdiff (some c.free) (some 0)) = c.size - c.free := by
+/-- a model pointer (offset from `low_ptr`) as an address -/
+def at_ (b : Nat) (p : Option Nat) : GenF.Ptr := p.map (b + ·)
+
+/-- `memset` on the padded memory is the model's `fillBytes` on the region -/
+theorem memset_pad (b off n : Nat) (bytes : List Nat) :
+    GenF.memsetBytes (List.replicate b 0 ++ bytes) (some (b + off)) 0 n =
+      List.replicate b 0 ++ Spec.fillBytes bytes off n 0 := by
+  unfold GenF.memsetBytes Spec.fillBytes
+  apply List.ext_getElem
+  · simp
+  · intro j h1 h2
+    simp only [List.length_append, List.length_replicate, List.length_map, List.length_range] at h1 h2
+    by_cases hj : j < b
+    · have : ¬ (b + off ≤ j) := by omega
+      simp [hj, this, List.getD_eq_getElem?_getD, List.getElem?_append, List.getElem?_replicate]
+    · have hk : j - b < bytes.length := by omega
+      have e : (b + off ≤ j ∧ j < b + off + n) ↔ (off ≤ j - b ∧ j - b < off + n) := by omega
+      simp [List.getElem_append, hj, e, List.getD_eq_getElem?_getD, List.getElem?_append, hk]
+
+/-- `cc_static_pool_new`: with a non-NULL `pool_alloc` and a data buffer at address `d` whose memory from
+`d + offset` on holds `bytes`, whatever `pool_alloc` contained before (`u`), the call is fault-free, returns
+`CC_OK` and produces the model's fresh pool placed at `d + offset` -/
+theorem spool_new_agrees (size offset d : Nat) (pa : GenF.Ptr) (hpa : pa ≠ none) (u : GenF.cc_static_pool_s)
+    (bytes : List Nat) (hu : u.bytes = List.replicate (d + offset) 0 ++ bytes) :
+    GenF.cc_static_pool_new size offset (some d) pa u =
+      (Stat.ok.code, some (ofCoreAt (d + offset) (SPoolCore.new size bytes)), false) := by
+  have hok : Stat.ok.code = 0 := by decide
+  unfold GenF.cc_static_pool_new ofCoreAt SPoolCore.new
+  simp [hpa, hu, hok, GenF.padd, GenF.paddOk]
+
+/-- `cc_static_pool_malloc` on the C-visible state (needs only `free ≤ size = |bytes|`) -/
+theorem core_malloc_agrees (b : Nat) (c : SPoolCore) (n : Nat) (h1 : c.free ≤ c.size) (h3 : c.bytes.length = c.size) :
+    GenF.cc_static_pool_malloc n (ofCoreAt b c) = (at_ b (c.malloc n).1, ofCoreAt b (c.malloc n).2, false) := by
+  unfold GenF.cc_static_pool_malloc SPoolCore.malloc ofCoreAt at_
+  have e : GenF.wsub c.size (GenF.pdiff (some (b + c.free)) (some b)) = c.size - c.free := by
     simp [GenF.pdiff, GenF.wsub]; omega
-  by_cases g : n > c.size - c.free <;> simp [e, g, GenF.padd]
+  by_cases g : n > c.size - c.free
+  · simp [e, g, GenF.pdiffOk]
+  · have : c.free + n ≤ c.bytes.length := by omega
+    simp [e, g, GenF.padd, GenF.paddOk, GenF.pdiffOk, this, Nat.add_assoc]
 
-/-- `cc_static_pool_malloc`: returned pointer and state -/
-theorem spool_malloc_agrees (s : StaticPool) (n : Nat) (h : s.Inv) :
-    (GenF.cc_static_pool_malloc n (ofCore s.core)).1 = (s.malloc n).1 ∧
-    (GenF.cc_static_pool_malloc n (ofCore s.core)).2 = ofCore (s.malloc n).2.core ∧
-    toCore (GenF.cc_static_pool_malloc n (ofCore s.core)).2 = (s.malloc n).2.core := by
+/-- `cc_static_pool_malloc`: fault-free, returned pointer and state -/
+theorem spool_malloc_agrees (b : Nat) (s : StaticPool) (n : Nat) (h : s.Inv) :
+    GenF.cc_static_pool_malloc n (ofCoreAt b s.core) = (at_ b (s.malloc n).1, ofCoreAt b (s.malloc n).2.core, false) ∧
+    toCore (GenF.cc_static_pool_malloc n (ofCoreAt b s.core)).2.1 = (s.malloc n).2.core := by
   obtain ⟨c1, c2⟩ := StaticPool.malloc_core s n
-  rw [c1, c2, core_malloc_agrees s.core n h.1]
-  exact ⟨rfl, rfl, toCore_ofCore _⟩
+  rw [c1, c2, core_malloc_agrees b s.core n h.1 h.2.2.1]
+  exact ⟨rfl, toCore_ofCoreAt _ _⟩
 
 /-- `cc_static_pool_calloc` on the C-visible state -/
-theorem core_calloc_agrees (c : SPoolCore) (count sz : Nat) (m : Mem) (h1 : c.free ≤ c.size) :
-    GenF.cc_static_pool_calloc count sz (ofCore c) = ((c.calloc count sz m).1, ofCore (c.calloc count sz m).2.1) := by
+theorem core_calloc_agrees (b : Nat) (c : SPoolCore) (count sz : Nat) (m : Mem) (h1 : c.free ≤ c.size)
+    (h3 : c.bytes.length = c.size) :
+    GenF.cc_static_pool_calloc count sz (ofCoreAt b c) =
+      (at_ b (c.calloc count sz m).1, ofCoreAt b (c.calloc count sz m).2.1, false) := by
   unfold GenF.cc_static_pool_calloc SPoolCore.calloc
   have en : GenF.wmul count sz = count * sz % sizeMod := rfl
   dsimp only
-  rw [core_malloc_agrees c _ h1, en]
+  rw [core_malloc_agrees b c _ h1 h3, en]
   generalize count * sz % sizeMod = n
   by_cases g : mulOverflows count sz = true
   · have g' : ¬ sz = 0 ∧ 18446744073709551615 / sz < count := by simpa [mulOverflows, sizeMod] using g
-    simp [g, g']
+    simp [g, g', at_]
   · have g' : ¬ sz = 0 → count ≤ 18446744073709551615 / sz := by simpa [mulOverflows, sizeMod] using g
+    have g2 : ¬ (¬ sz = 0 ∧ 18446744073709551615 / sz < count) := by
+      intro ⟨a, c⟩; have := g' a; omega
     unfold SPoolCore.malloc
     by_cases f : n > c.size - c.free
-    · simp [g, f] <;> exact g'
-    · simp [g, f, ofCore, GenF.memsetBytes, Spec.fillBytes] <;> exact g'
+    · simp [g, g2, f, at_]
+    · have : c.free + n ≤ c.bytes.length := by omega
+      simp [g, g2, f, at_, ofCoreAt, memset_pad, GenF.memsetOk, this, Nat.add_assoc]
 
-/-- `cc_static_pool_calloc`: returned pointer, state (the zeroed bytes included), ledger -/
-theorem spool_calloc_agrees (s : StaticPool) (count sz : Nat) (m : Mem) (h : s.Inv) :
-    (GenF.cc_static_pool_calloc count sz (ofCore s.core)).1 = (s.calloc count sz m).1 ∧
-    (GenF.cc_static_pool_calloc count sz (ofCore s.core)).2 = ofCore (s.calloc count sz m).2.1.core ∧
-    toCore (GenF.cc_static_pool_calloc count sz (ofCore s.core)).2 = (s.calloc count sz m).2.1.core ∧
+/-- `cc_static_pool_calloc`: fault-free, returned pointer, state (the zeroed bytes included), ledger -/
+theorem spool_calloc_agrees (b : Nat) (s : StaticPool) (count sz : Nat) (m : Mem) (h : s.Inv) :
+    GenF.cc_static_pool_calloc count sz (ofCoreAt b s.core) =
+      (at_ b (s.calloc count sz m).1, ofCoreAt b (s.calloc count sz m).2.1.core, false) ∧
+    toCore (GenF.cc_static_pool_calloc count sz (ofCoreAt b s.core)).2.1 = (s.calloc count sz m).2.1.core ∧
     (s.calloc count sz m).2.2 = m := by
   have hm := StaticPool.calloc_nofault s count sz m h
   obtain ⟨c1, c2, _⟩ := StaticPool.calloc_core s count sz m
-  rw [c1, c2, core_calloc_agrees s.core count sz m h.1]
-  exact ⟨rfl, rfl, toCore_ofCore _, hm⟩
+  rw [c1, c2, core_calloc_agrees b s.core count sz m h.1 h.2.2.1]
+  exact ⟨rfl, toCore_ofCoreAt _ _, hm⟩
 
 /-- `cc_static_pool_free`, for every pointer argument (NULL included) -/
-theorem spool_free_agrees (s : StaticPool) (p : Option Nat) :
-    GenF.cc_static_pool_free p (ofCore s.core) = ofCore (s.release p).core ∧
-    toCore (GenF.cc_static_pool_free p (ofCore s.core)) = (s.release p).core := by
+theorem spool_free_agrees (b : Nat) (s : StaticPool) (p : Option Nat) :
+    GenF.cc_static_pool_free (at_ b p) (ofCoreAt b s.core) = ofCoreAt b (s.release p).core ∧
+    toCore (GenF.cc_static_pool_free (at_ b p) (ofCoreAt b s.core)) = (s.release p).core := by
   rw [StaticPool.release_core]
-  have key : GenF.cc_static_pool_free p (ofCore s.core) = ofCore (s.core.release p) := by
-    unfold GenF.cc_static_pool_free SPoolCore.release ofCore
-    by_cases c : p = some s.core.high <;> simp [c]
+  have key : GenF.cc_static_pool_free (at_ b p) (ofCoreAt b s.core) = ofCoreAt b (s.core.release p) := by
+    unfold GenF.cc_static_pool_free SPoolCore.release ofCoreAt at_
+    cases p with
+    | none => simp
+    | some a => by_cases c : a = s.core.high <;> simp [c]
   rw [key]
-  exact ⟨rfl, toCore_ofCore _⟩
+  exact ⟨rfl, toCore_ofCoreAt _ _⟩
 
 /-- `cc_static_pool_reset` -/
-theorem spool_reset_agrees (s : StaticPool) :
-    GenF.cc_static_pool_reset (ofCore s.core) = ofCore s.reset.core ∧
-    toCore (GenF.cc_static_pool_reset (ofCore s.core)) = s.reset.core := by
-  have key : GenF.cc_static_pool_reset (ofCore s.core) = ofCore s.reset.core := rfl
+theorem spool_reset_agrees (b : Nat) (s : StaticPool) :
+    GenF.cc_static_pool_reset (ofCoreAt b s.core) = ofCoreAt b s.reset.core ∧
+    toCore (GenF.cc_static_pool_reset (ofCoreAt b s.core)) = s.reset.core := by
+  have key : GenF.cc_static_pool_reset (ofCoreAt b s.core) = ofCoreAt b s.reset.core := by
+    simp [GenF.cc_static_pool_reset, ofCoreAt, StaticPool.reset, SPoolCore.reset]
   rw [key]
-  exact ⟨rfl, toCore_ofCore _⟩
+  exact ⟨rfl, toCore_ofCoreAt _ _⟩
 
-/-- `cc_static_pool_used_bytes` -/
-theorem spool_used_bytes_agrees (s : StaticPool) :
-    GenF.cc_static_pool_used_bytes (ofCore s.core) = s.core.usedBytes := by
-  simp [GenF.cc_static_pool_used_bytes, ofCore, SPoolCore.usedBytes, GenF.pdiff, GenF.wsub]
+/-- `cc_static_pool_used_bytes`: fault-free -/
+theorem spool_used_bytes_agrees (b : Nat) (s : StaticPool) :
+    GenF.cc_static_pool_used_bytes (ofCoreAt b s.core) = (s.core.usedBytes, false) := by
+  simp [GenF.cc_static_pool_used_bytes, ofCoreAt, SPoolCore.usedBytes, GenF.pdiff, GenF.pdiffOk, GenF.wsub]
 
-/-- `cc_static_pool_free_bytes` (under the invariant `free ≤ size`, so that the subtraction does not wrap) -/
-theorem spool_free_bytes_agrees (s : StaticPool) (h : s.Inv) :
-    GenF.cc_static_pool_free_bytes (ofCore s.core) = s.core.freeBytes := by
+/-- `cc_static_pool_free_bytes`: fault-free (under the invariant `free ≤ size` the subtraction does not wrap) -/
+theorem spool_free_bytes_agrees (b : Nat) (s : StaticPool) (h : s.Inv) :
+    GenF.cc_static_pool_free_bytes (ofCoreAt b s.core) = (s.core.freeBytes, false) := by
   obtain ⟨h1, _⟩ := h
-  simp [GenF.cc_static_pool_free_bytes, ofCore, SPoolCore.freeBytes, GenF.pdiff, GenF.wsub]
+  simp [GenF.cc_static_pool_free_bytes, ofCoreAt, SPoolCore.freeBytes, GenF.pdiff, GenF.pdiffOk, GenF.wsub]
   omega
 
-/-- the hypotheses are satisfiable by a non-trivial state: an 8-byte pool with one live 3-byte block;
-the translated `calloc(2, 2)` returns offset 3 and zeroes bytes 3 to 6, `malloc(6)` does not fit -/
+/-- the hypotheses are satisfiable by a non-trivial state: an 8-byte pool at address 2 with one live 3-byte
+block; the translated `calloc(2, 2)` returns address 5, zeroes bytes 5 to 8 and does not fault, `malloc(6)`
+does not fit; on a state that violates the invariant (memory shorter than `size`) `calloc` *does* fault -/
 example :
     let s : StaticPool := { core := { size := 8, free := 3, high := 0, bytes := [1, 1, 1, 1, 1, 1, 1, 1] },
                             blocks := [(0, 3)], undo := true }
     s.Inv ∧
-    (GenF.cc_static_pool_calloc 2 2 (ofCore s.core)).1 = some 3 ∧
-    (GenF.cc_static_pool_calloc 2 2 (ofCore s.core)).2.bytes = [1, 1, 1, 0, 0, 0, 0, 1] ∧
-    (GenF.cc_static_pool_malloc 6 (ofCore s.core)).1 = none ∧
-    GenF.cc_static_pool_free_bytes (ofCore s.core) = 5 := by decide
+    (GenF.cc_static_pool_calloc 2 2 (ofCoreAt 2 s.core)).1 = some 5 ∧
+    (GenF.cc_static_pool_calloc 2 2 (ofCoreAt 2 s.core)).2.1.bytes = [0, 0, 1, 1, 1, 0, 0, 0, 0, 1] ∧
+    (GenF.cc_static_pool_calloc 2 2 (ofCoreAt 2 s.core)).2.2 = false ∧
+    (GenF.cc_static_pool_malloc 6 (ofCoreAt 2 s.core)).1 = none ∧
+    GenF.cc_static_pool_free_bytes (ofCoreAt 2 s.core) = (5, false) ∧
+    (GenF.cc_static_pool_calloc 2 2 (ofCoreAt 2 { s.core with bytes := [1, 1, 1] })).2.2 = true := by decide
 
 end CC.Properties.C12Gen
